@@ -606,7 +606,10 @@ Record LoopInv (s0 s : st) (k : nat) : Prop := {
   lp_now : now s <= now s0 + Z.of_nat k * OP;
   lp_done : forall i, (i < k)%nat -> evald (now s0) (now s) s0 (slot_at s0 i) (slot_at s i);
   lp_todo : forall i, (k <= i < 8)%nat -> slot_at s i = slot_at s0 i;
-  lp_outs : exists add, outs s = add ++ outs s0 /\ Forall (fun o => isghost o = true -> fin_from s0 s k o) add
+  lp_outs : exists add, outs s = add ++ outs s0 /\ Forall (fun o => isghost o = true -> fin_from s0 s k o) add;
+  (* forward: a slot that was running and is not any more has its switch-back in the trace *)
+  lp_fin : forall i, (i < k)%nat -> active (slot_at s0 i) = true -> active (slot_at s i) = false ->
+           exists tcb u, In (finish_of (slot_at s0 i) tcb u) (outs s)
 }.
 Lemma evald_widen lo hi lo' hi' s0 x y : lo' <= lo -> hi <= hi' -> evald lo hi s0 x y -> evald lo' hi' s0 x y.
 Proof.
@@ -650,6 +653,13 @@ Proof.
       * rewrite Forall_forall in *. intros o Ho Gh. destruct (F0 o Ho Gh) as (i & tl & P1 & P2 & P3 & P4 & P5).
         exists i, tl. split; [lia|]. split; [destruct B; lia|]. split; auto. split; auto.
         rewrite G by lia. auto.
+  - intros i Hi A0 A1. destruct (Nat.eq_dec i k) as [->|Ne].
+    + rewrite O1. destruct O2 as [[_ [Aa|Ax]]|(Ax & Cx & a1 & -> & NG)].
+      * fold s' in Aa. congruence.
+      * rewrite lp_todo0 in Ax by lia. congruence.
+      * rewrite lp_todo0 by lia. do 2 eexists. left. reflexivity.
+    + rewrite G in A1 by (auto; lia). destruct (lp_fin0 i ltac:(lia) A0 A1) as (tcb & u & Hin).
+      exists tcb, u. rewrite O1. apply in_or_app. right. exact Hin.
 Qed.
 
 Lemma cd_loop_unfold c s :
